@@ -205,6 +205,13 @@ def scope_table_failures(ctx):
         secs = None
         ctx.notes.append(f"dependency scoping of Tables.v sections failed ({type(e).__name__}: {e}); every failed section counts")
     ctx.table_deps = {"kinds": sorted(ctx.kinds), "sections": sorted(secs) if secs is not None else "all"}
+    # tripwires (shape readings of renderers without a finite complete universe) never break a tie by themselves:
+    # no Coq identifier stands for them; the properties whose correspondence + oracle decide the behaviour say so
+    tripped = (ctx.tables_info or {}).get("tripped", {}) if isinstance(ctx.tables_info, dict) else {}
+    mine = sorted(n for n, t in tripped.items() if ctx.prop in t.get("decided_by", []))
+    ctx.table_deps["tripwires_tripped"] = mine
+    for n in mine:
+        ctx.notes.append(f"tripwire tripped: {n} ({tripped[n].get('why', '')[:200]}): decided by the correspondence run")
     for name, reason in sorted(ctx.table_failures.items()):
         if secs is None or name in secs:
             ctx.broken.append(("translator", f"Tables.v section {name}", reason))
